@@ -338,6 +338,14 @@ func extractRemote(repo, out string) {
 		}
 		return true
 	})
+	// does the constructor refuse a query that does not parse strictly (url.ParseQuery on u.RawQuery)?
+	checksQuery := false
+	ast.Inspect(mk, func(n ast.Node) bool {
+		if c, ok := n.(*ast.CallExpr); ok && exprText(c.Fun) == "url.ParseQuery" && len(c.Args) == 1 && exprText(c.Args[0]) == "u.RawQuery" {
+			checksQuery = true
+		}
+		return true
+	})
 	if len(gitSchemes) == 0 || len(gitKeys) == 0 || len(archVals) == 0 || len(suffixes) == 0 || len(prefixes) == 0 {
 		fail("literals")
 		return
@@ -361,10 +369,12 @@ def shorthandPrefixes : List String := %s
 
 def makeChecksUser : Bool := %v
 
+def makeChecksQuery : Bool := %v
+
 def remoteExtracted : Bool := true
 
 end Slug.Generated
-`, strings.Join(types, ", "), leanStrList(gitSchemes), leanStrList(gitKeys), leanStrList(archVals), leanStrList(suffixes), leanStrList(prefixes), checksUser)
+`, strings.Join(types, ", "), leanStrList(gitSchemes), leanStrList(gitKeys), leanStrList(archVals), leanStrList(suffixes), leanStrList(prefixes), checksUser, checksQuery)
 	writeIfChanged(p, content)
 }
 
